@@ -1,7 +1,7 @@
 SPECIFICATION Spec
 CONSTANTS
-NReady = 1 NGet = 2 NCons = 1 MaxObs = 0 GetFix = TRUE Variant = "asis" Dir = TRUE
-Scripts <- OrderScripts Steps = {} Horizon = 0
+NReady = 1 NGet = 1 NCons = 1 MaxObs = 0 GetFix = TRUE Variant = "asis" Dir = TRUE
+Scripts <- OrderScripts StepSets <- NoSteps Horizon = 0
 INVARIANT NotBad
 PROPERTY CallsReturn
 CHECK_DEADLOCK FALSE
